@@ -55,10 +55,10 @@ type HasSpec struct { // fact: each given (whitespace-normalised) simple stateme
 	Lean  string   `json:"lean"`
 }
 type Spec struct {
-	Consts []ConstSpec `json:"consts"`
-	Funcs  []FuncSpec  `json:"funcs"`
-	Calls  []CallSpec  `json:"calls"`
-	Lits   []LitSpec   `json:"lits"`
+	Consts  []ConstSpec  `json:"consts"`
+	Funcs   []FuncSpec   `json:"funcs"`
+	Calls   []CallSpec   `json:"calls"`
+	Lits    []LitSpec    `json:"lits"`
 	Kernels []KernelSpec `json:"kernels"`
 	Has     []HasSpec    `json:"has"`
 }
@@ -220,6 +220,34 @@ func findFunc(p *pkg, name string) *ast.FuncDecl {
 		}
 	}
 	return nil
+}
+
+// findPlainFunc: the package-level function (no receiver) of that name, if any.
+func findPlainFunc(p *pkg, name string) *ast.FuncDecl {
+	for _, f := range p.files {
+		for _, d := range f.Decls {
+			if fd, ok := d.(*ast.FuncDecl); ok && fd.Recv == nil && fd.Name.Name == name {
+				return fd
+			}
+		}
+	}
+	return nil
+}
+
+// findUniqueMethod: the only method of that (unexported) name in the package, if there is exactly one.
+func findUniqueMethod(p *pkg, name string) *ast.FuncDecl {
+	var r *ast.FuncDecl
+	for _, f := range p.files {
+		for _, d := range f.Decls {
+			if fd, ok := d.(*ast.FuncDecl); ok && fd.Recv != nil && fd.Name.Name == name {
+				if r != nil {
+					return nil
+				}
+				r = fd
+			}
+		}
+	}
+	return r
 }
 
 // normalised source of a function, then hashed. The normal form is meant to be stable under rewrites that cannot
@@ -529,17 +557,56 @@ func genSection(section string, spec Spec, out string, d *strings.Builder) {
 		fd := findFunc(p, cs.Func)
 		var found []string
 		if fd != nil && fd.Body != nil {
-			ast.Inspect(fd.Body, func(n ast.Node) bool {
-				if ce, ok := n.(*ast.CallExpr); ok {
-					nm := calleeName(ce.Fun)
-					for _, w := range cs.Callees {
-						if nm == w || strings.HasSuffix(nm, "."+w) {
-							found = append(found, w)
-						}
+			// Calls to same-package helpers that are not themselves listed callees are FLATTENED: the helper's own
+			// listed calls appear at the place of the call (depth ≤ 4, no recursion into a function twice on one path),
+			// so that extracting a few lines into a helper, or inlining one, leaves the fact unchanged.
+			matches := func(nm string) []string {
+				var out []string
+				for _, w := range cs.Callees {
+					if nm == w || strings.HasSuffix(nm, "."+w) {
+						out = append(out, w)
 					}
 				}
-				return true
-			})
+				return out
+			}
+			var walk func(body ast.Node, depth int, onPath map[*ast.FuncDecl]bool)
+			walk = func(body ast.Node, depth int, onPath map[*ast.FuncDecl]bool) {
+				ast.Inspect(body, func(n ast.Node) bool {
+					ce, ok := n.(*ast.CallExpr)
+					if !ok {
+						return true
+					}
+					nm := calleeName(ce.Fun)
+					if m := matches(nm); len(m) > 0 {
+						found = append(found, m...)
+						return true
+					}
+					if depth >= 4 {
+						return true
+					}
+					var helper *ast.FuncDecl
+					switch f := ce.Fun.(type) {
+					case *ast.Ident:
+						helper = findPlainFunc(p, f.Name)
+					case *ast.SelectorExpr:
+						if !ast.IsExported(f.Sel.Name) {
+							helper = findUniqueMethod(p, f.Sel.Name)
+						}
+					}
+					if helper != nil && helper.Body != nil && !onPath[helper] && helper != fd {
+						// arguments are evaluated before the call: visit them first, then the helper's body
+						for _, a := range ce.Args {
+							walk(a, depth, onPath)
+						}
+						onPath[helper] = true
+						walk(helper.Body, depth+1, onPath)
+						delete(onPath, helper)
+						return false
+					}
+					return true
+				})
+			}
+			walk(fd.Body, 0, map[*ast.FuncDecl]bool{})
 		} else {
 			found = []string{"<function missing>"}
 		}
@@ -563,25 +630,57 @@ func genSection(section string, spec Spec, out string, d *strings.Builder) {
 			return strings.Join(strings.Fields(buf.String()), " ")
 		}
 		if fd != nil && fd.Body != nil {
-			ast.Inspect(fd.Body, func(n ast.Node) bool {
-				switch x := n.(type) {
-				case *ast.AssignStmt, *ast.ReturnStmt, *ast.IncDecStmt, *ast.ExprStmt, *ast.DeferStmt, *ast.GoStmt, *ast.SendStmt:
-					present[norm(n)] = true
-				case *ast.CaseClause:
-					if x.List == nil {
-						present["default:"] = true
-					} else {
-						parts := []string{}
-						for _, e := range x.List {
-							parts = append(parts, norm(e))
-						}
-						present["case "+strings.Join(parts, ", ")+":"] = true
-					}
-				case *ast.IfStmt:
-					present["if "+norm(x.Cond)] = true
+			// statements of same-package helpers the function calls count as present too (depth ≤ 4), so that extracting a
+			// few lines into a helper leaves the fact unchanged
+			var bodies []ast.Node
+			seen := map[*ast.FuncDecl]bool{fd: true}
+			var collect func(body ast.Node, depth int)
+			collect = func(body ast.Node, depth int) {
+				bodies = append(bodies, body)
+				if depth >= 4 {
+					return
 				}
-				return true
-			})
+				ast.Inspect(body, func(n ast.Node) bool {
+					if ce, ok := n.(*ast.CallExpr); ok {
+						var helper *ast.FuncDecl
+						switch f := ce.Fun.(type) {
+						case *ast.Ident:
+							helper = findPlainFunc(p, f.Name)
+						case *ast.SelectorExpr:
+							if !ast.IsExported(f.Sel.Name) {
+								helper = findUniqueMethod(p, f.Sel.Name)
+							}
+						}
+						if helper != nil && helper.Body != nil && !seen[helper] && !ast.IsExported(helper.Name.Name) {
+							seen[helper] = true
+							collect(helper.Body, depth+1)
+						}
+					}
+					return true
+				})
+			}
+			collect(fd.Body, 0)
+			for _, body := range bodies {
+				ast.Inspect(body, func(n ast.Node) bool {
+					switch x := n.(type) {
+					case *ast.AssignStmt, *ast.ReturnStmt, *ast.IncDecStmt, *ast.ExprStmt, *ast.DeferStmt, *ast.GoStmt, *ast.SendStmt:
+						present[norm(n)] = true
+					case *ast.CaseClause:
+						if x.List == nil {
+							present["default:"] = true
+						} else {
+							parts := []string{}
+							for _, e := range x.List {
+								parts = append(parts, norm(e))
+							}
+							present["case "+strings.Join(parts, ", ")+":"] = true
+						}
+					case *ast.IfStmt:
+						present["if "+norm(x.Cond)] = true
+					}
+					return true
+				})
+			}
 		}
 		q := []string{}
 		for _, st := range hs.Stmts {
